@@ -184,6 +184,7 @@ theorem runTxs_M2 (c : CSet) : ∀ (txs : List Tx) (s : App) (incs : List (Signe
 structure QuietBlock2 (s : App) (c : CSet) (b : Block) : Prop where
   votes : VotesOk { s with height := s.height + 1, time := s.time + b.dt } b.votes
   noEvid : b.evid = []
+  noGov : b.gov = []
   txs : ∀ s2, beginState genEnv s b = .ok s2 → QuietTxs2 b.txs s2 []
   fits : ∀ s2, beginState genEnv s b = .ok s2 → Fits2 (runTxs genEnv b.txs s2 [] []).2 c
 
@@ -206,7 +207,7 @@ theorem block_G2 (s : App) (c : CSet) (b : Block) (g : G2 s c) (q : QuietBlock2 
   obtain ⟨ups, s4, c', he, hc, hag, g4, _⟩ := endBlock_G2 _ c m3 f3
   refine ⟨⟨(runTxs genEnv b.txs s2 [] []).1, ups⟩, s4, c', ?_, hc, hag, g4⟩
   unfold block
-  rw [beforeEnd_eq, hbegin]
+  rw [beforeEnd_eq _ _ _ q.noGov, hbegin]
   simp only [he]
 
 def QuietRun2 : List Block → App → CSet → Prop
@@ -302,8 +303,8 @@ theorem quietTxs2_of_B : ∀ (txs : List Tx) (s : App) (incs : List (Signer × N
 theorem quietBlock2_of_B (s : App) (c : CSet) (b : Block) (h : quietBlock2B s c b = true) : QuietBlock2 s c b := by
   unfold quietBlock2B at h
   simp only [Bool.and_eq_true] at h
-  obtain ⟨⟨hv, he⟩, hm⟩ := h
-  refine ⟨?_, by simpa using he, ?_, ?_⟩
+  obtain ⟨⟨⟨hv, he⟩, hgv⟩, hm⟩ := h
+  refine ⟨?_, by simpa using he, by simpa using hgv, ?_, ?_⟩
   · cases hsl : slashingBegin b.votes { s with height := s.height + 1, time := s.time + b.dt } with
     | error e => rw [hsl] at hv; cases hv
     | ok s1 =>
